@@ -12,6 +12,21 @@ def run(ctx):
     thorough = ctx.tier == "thorough"
     viols, stats = g.run_gossip(ctx, {"C29_"}, thorough)
     g.report(ctx, viols)
+    # Unbounded complement (informational, never gating): TLAPS proof of spec/Timestamp.tla (the counter
+    # alone, clock any natural number, stalls and backward settings allowed).
+    import subprocess, re, os, shutil
+    proof = {"ran": False}
+    try:
+        shutil.rmtree(os.path.join(g.vlib.SPEC, ".tlacache"), ignore_errors=True)
+        p = subprocess.run(["timeout", "300", "tlapm", "--threads", "4", "Timestamp.tla"], cwd=g.vlib.SPEC,
+                           stdout=subprocess.PIPE, stderr=subprocess.STDOUT, text=True)
+        m = re.search(r"All (\d+) obligations proved", p.stdout)
+        proof = {"ran": True, "all_proved": bool(m), "obligations": int(m.group(1)) if m else None,
+                 "theorems": ["InvHolds", "C29 (Spec => StrictlyIncreasing)"], "prover": "tlapm 1.6.0-pre (SMT, Zenon, Isabelle, PTL)"}
+        shutil.rmtree(os.path.join(g.vlib.SPEC, ".tlacache"), ignore_errors=True)
+    except Exception as e:  # tool trouble is not a verdict
+        proof = {"ran": False, "error": str(e)[:200]}
+    stats["tlaps_unbounded_proof"] = proof
     ctx.cov["distinct_nontrivial"] = stats.get("runs", 0)
     ctx.cov["exhaustive"] = not stats.get("model_sampled", True)
     ctx.assumptions += ["the cached node announcement is not created by the timestamp counter and is excluded (statement: inventory and refs announcements)",
